@@ -3,12 +3,14 @@ package mon
 import (
 	"fmt"
 	"math/rand"
+	"reflect"
 	"regexp"
 	"sort"
 	"strings"
 
 	gpb "github.com/openconfig/gnmi/proto/gnmi"
 	"github.com/openconfig/ygot/gnmidiff"
+	"github.com/openconfig/ygot/ygot"
 	"github.com/openconfig/ygot/ytypes"
 	"github.com/openconfig/ygot/zzverif/lib"
 )
@@ -64,7 +66,7 @@ func canonKeySet(cfg *lib.Cfg, m map[string]interface{}) []string {
 func runC23(r *lib.Run) {
 	r.Rule = "SetRequest r built from a tree (replace of a container/list entry with a JSON payload, or leaf updates, optionally with deletes); L = leaves its intent writes, from the C13 reference interpreter on an empty model; notifications carrying exactly L (scalar updates, split over notifications and prefixes); then one edit: drop a leaf, change a leaf's value, add a leaf under a subtree r deletes or replaces; oracle: unedited => nothing missing/extra/mismatched and Common = L; edited => exactly that leaf in Missing / Mismatched / Extra; non-trivial = |L| >= 3; distinct by cfg+request+edit"
 	r.Assume("OpenConfig-style configuration with the generated schema; key values avoid characters whose path-string form is a C08 finding; empty-typed leaves, 64-bit numbers and decimals are excluded from the edited leaf because their JSON/TypedValue forms are compared textually by design")
-	n := r.N(300, 6000)
+	n := r.N(2000, 40000)
 	for _, cn := range []string{"vtoc/C-simple", "vtoc/C-opstate"} {
 		if r.Quick() && cn != "vtoc/C-simple" {
 			continue
@@ -77,7 +79,14 @@ func runC23(r *lib.Run) {
 			opt := lib.DefaultGen()
 			opt.Hostile = false
 			opt.OrderedSiblings = true
+			opt.EmptyLeafLists = i%4 == 3
 			t := lib.NewGen(cfg, r.Seed, i, opt).Tree()
+			// every fifth case runs without a schema; values whose JSON and TypedValue
+			// forms gnmidiff documents as not comparable there are removed from the tree
+			noSchema := i%5 == 4
+			if noSchema {
+				stripLossy(cfg, t)
+			}
 			o := cfg.Observe(t)
 			nodes := dataNodes(cfg, t)
 			if len(nodes) == 0 {
@@ -86,6 +95,11 @@ func runC23(r *lib.Run) {
 			rng := rand.New(rand.NewSource(r.Seed*919 + int64(i)))
 			scope := nodes[rng.Intn(len(nodes))]
 			sch := cfg.Schema()
+			mode := "schema"
+			if noSchema {
+				sch, mode = nil, "no-schema"
+			}
+			r.Hit("mode:" + mode)
 			// request: replace scope with JSON (or leaf updates), prefix split
 			k := rng.Intn(len(scope.Path) + 1)
 			prefix := scope.Path[:k]
@@ -234,7 +248,7 @@ func runC23(r *lib.Run) {
 			for _, cls := range []string{"missing", "extra", "mismatched"} {
 				if strings.Join(got[cls], "\n") != strings.Join(want[cls], "\n") {
 					okAll = false
-					feat := kind + ":" + edit + ":" + cls
+					feat := mode + ":" + kind + ":" + edit + ":" + cls
 					// classify the first unexpected key
 					unexpected := diffStrings(got[cls], want[cls])
 					absent := diffStrings(want[cls], got[cls])
@@ -262,11 +276,12 @@ func runC23(r *lib.Run) {
 			}
 			if okAll {
 				r.Hit("classified-ok:" + edit)
+				r.Hit("classified-ok:" + mode)
 			}
 			if edit == "none" && okAll {
 				// Common = L
 				if len(d.CommonUpdates) < len(L) {
-					feat := kind
+					feat := mode + ":" + kind
 					for _, l := range L {
 						if bigNumericKey(l) {
 							feat = "numeric-list-key>=1e6-rendered-with-exponent"
@@ -280,7 +295,87 @@ func runC23(r *lib.Run) {
 			}
 		}
 	}
-	r.RequireCov("request:replace-json", "request:leaf-updates", "edit:none", "edit:drop", "edit:change", "edit:add", "classified-ok:none", "classified-ok:drop", "classified-ok:change")
+	r.RequireCov("request:replace-json", "request:leaf-updates", "edit:none", "edit:drop", "edit:change", "edit:add", "classified-ok:none", "classified-ok:drop", "classified-ok:change", "classified-ok:schema", "classified-ok:no-schema")
+}
+
+// lossyKind reports Go kinds whose JSON form (string, base64, [null]) differs
+// from their scalar TypedValue form.
+func lossyKind(t reflect.Type) bool {
+	for t.Kind() == reflect.Ptr {
+		t = t.Elem()
+	}
+	switch t.Kind() {
+	case reflect.Uint64, reflect.Float64:
+		return true
+	case reflect.Int64:
+		return !t.Implements(reflect.TypeOf((*ygot.GoEnum)(nil)).Elem())
+	case reflect.Slice:
+		return t.Elem().Kind() == reflect.Uint8
+	case reflect.Bool:
+		return t.Name() == "YANGEmpty"
+	}
+	return false
+}
+
+func lossyValue(v reflect.Value) bool {
+	switch v.Kind() {
+	case reflect.Interface:
+		return !v.IsNil() && lossyValue(v.Elem())
+	case reflect.Ptr:
+		if v.IsNil() {
+			return false
+		}
+		if v.Elem().Kind() == reflect.Struct && v.Elem().NumField() == 1 {
+			return lossyValue(v.Elem().Field(0)) // wrapper union
+		}
+		return lossyKind(v.Type())
+	case reflect.Slice:
+		if v.Type().Elem().Kind() == reflect.Uint8 {
+			return true
+		}
+		for i := 0; i < v.Len(); i++ {
+			if lossyValue(v.Index(i)) {
+				return true
+			}
+		}
+		return lossyKind(v.Type().Elem())
+	}
+	return lossyKind(v.Type())
+}
+
+// stripLossy removes leaves, leaf-lists and lists keyed by values of lossy kinds.
+func stripLossy(cfg *lib.Cfg, t ygot.GoStruct) {
+	for _, n := range cfg.Nodes(t) {
+		sv := n.V.Elem()
+		for _, f := range n.Info.Fields {
+			fv := sv.Field(f.Idx)
+			switch f.Kind {
+			case lib.KLeaf, lib.KLeafList:
+				if fv.IsZero() {
+					continue
+				}
+				keyLeaf := false
+				if n.IsEntry {
+					for _, kf := range n.Info.KeyFields() {
+						if kf != nil && kf.Idx == f.Idx {
+							keyLeaf = true
+						}
+					}
+				}
+				if !keyLeaf && lossyValue(fv) {
+					fv.Set(reflect.Zero(fv.Type()))
+				}
+			case lib.KList, lib.KOrdered:
+				for _, kf := range cfg.Info(f.Elem).KeyFields() {
+					if kf != nil && lossyKind(f.Elem.Elem().Field(kf.Idx).Type) {
+						fv.Set(reflect.Zero(fv.Type()))
+					}
+				}
+			case lib.KUnkeyed:
+				fv.Set(reflect.Zero(fv.Type()))
+			}
+		}
+	}
 }
 
 func canonMismatch(cfg *lib.Cfg, d gnmidiff.SetToNotifsDiff) []string {
